@@ -27,7 +27,10 @@ pub(crate) fn render_local_stat(
     let is_const = stat.syntax().kind() == LuaKind::Syntax(LuaSyntaxKind::ConstStat);
 
     if node_has_direct_comment_child(stat.syntax()) {
-        return format_local_stat_trivia_aware(ctx, plan, &stat);
+        // the comment-aware rendering leaves out the comment behind the last token: attach it
+        let mut docs = format_local_stat_trivia_aware(ctx, plan, &stat);
+        append_trailing_statement_suffix(ctx, plan, &mut docs, stat.syntax());
+        return docs;
     }
 
     let keyword_kind = if is_const {
@@ -109,7 +112,10 @@ pub(crate) fn render_assign_stat(
     };
 
     if node_has_direct_comment_child(stat.syntax()) {
-        return format_assign_stat_trivia_aware(ctx, plan, &stat);
+        // the comment-aware rendering leaves out the comment behind the last token: attach it
+        let mut docs = format_assign_stat_trivia_aware(ctx, plan, &stat);
+        append_trailing_statement_suffix(ctx, plan, &mut docs, stat.syntax());
+        return docs;
     }
 
     let mut docs = Vec::new();
@@ -182,7 +188,10 @@ pub(crate) fn render_return_stat(
     };
 
     if node_has_direct_comment_child(stat.syntax()) {
-        return format_return_stat_trivia_aware(ctx, plan, &stat);
+        // the comment-aware rendering leaves out the comment behind the last token: attach it
+        let mut docs = format_return_stat_trivia_aware(ctx, plan, &stat);
+        append_trailing_statement_suffix(ctx, plan, &mut docs, stat.syntax());
+        return docs;
     }
 
     let return_token = first_direct_token(stat.syntax(), LuaTokenKind::TkReturn);
@@ -497,9 +506,7 @@ fn collect_local_stat_entries(
                 if let Some(node) = child.as_node()
                     && let Some(comment) = LuaComment::cast(node.clone())
                 {
-                    if has_inline_non_trivia_before(comment.syntax())
-                        && !has_inline_non_trivia_after(comment.syntax())
-                    {
+                    if is_statement_trailing_comment(comment.syntax()) {
                         continue;
                     }
                     let entry = SequenceEntry::Comment(SequenceComment {
@@ -537,6 +544,25 @@ fn collect_local_stat_entries(
     }
 }
 
+/// The comment behind the last token of its statement (it is attached as the statement's trailing
+/// comment). A comment that merely ends a line in the middle of the statement (`x = -- why`,
+/// value on the next line) is part of the sequence and must be kept there.
+fn is_statement_trailing_comment(comment: &LuaSyntaxNode) -> bool {
+    if !has_inline_non_trivia_before(comment) || has_inline_non_trivia_after(comment) {
+        return false;
+    }
+
+    let mut next = comment.next_sibling_or_token();
+    while let Some(element) = next {
+        match element.kind() {
+            LuaKind::Token(LuaTokenKind::TkWhitespace | LuaTokenKind::TkEndOfLine)
+            | LuaKind::Syntax(LuaSyntaxKind::Comment) => next = element.next_sibling_or_token(),
+            _ => return false,
+        }
+    }
+    true
+}
+
 fn collect_assign_stat_entries(
     ctx: &FormatContext,
     plan: &FormatPlan,
@@ -565,9 +591,7 @@ fn collect_assign_stat_entries(
                 if let Some(node) = child.as_node()
                     && let Some(comment) = LuaComment::cast(node.clone())
                 {
-                    if has_inline_non_trivia_before(comment.syntax())
-                        && !has_inline_non_trivia_after(comment.syntax())
-                    {
+                    if is_statement_trailing_comment(comment.syntax()) {
                         continue;
                     }
                     let entry = SequenceEntry::Comment(SequenceComment {
@@ -623,9 +647,7 @@ fn collect_return_stat_entries(
                 if let Some(node) = child.as_node()
                     && let Some(comment) = LuaComment::cast(node.clone())
                 {
-                    if has_inline_non_trivia_before(comment.syntax())
-                        && !has_inline_non_trivia_after(comment.syntax())
-                    {
+                    if is_statement_trailing_comment(comment.syntax()) {
                         continue;
                     }
                     entries.push(SequenceEntry::Comment(SequenceComment {
@@ -930,13 +952,21 @@ pub(crate) fn render_statement_align_split(
     plan: &FormatPlan,
 ) -> Option<DocPair> {
     match syntax_plan.kind {
+        // A statement with a comment of its own (`x = -- why` / `value`) is rendered by the
+        // comment-aware path; the split below would drop the comment.
         LuaSyntaxKind::LocalStat => {
             let node = find_node_by_id(root, syntax_plan.syntax_id)?;
+            if node_has_direct_comment_child(&node) {
+                return None;
+            }
             let stat = LuaLocalStat::cast(node)?;
             render_local_stat_align_split(ctx, plan, syntax_plan.syntax_id, &stat)
         }
         LuaSyntaxKind::AssignStat => {
             let node = find_node_by_id(root, syntax_plan.syntax_id)?;
+            if node_has_direct_comment_child(&node) {
+                return None;
+            }
             let stat = LuaAssignStat::cast(node)?;
             render_assign_stat_align_split(ctx, plan, syntax_plan.syntax_id, &stat)
         }
